@@ -320,6 +320,8 @@ class Translator:
         k = self.key(node)
         if k in self.consts:
             term, typ = self.consts[k]
+            if "{st}" in term and "__st" in env:
+                term = term.replace("{st}", env["__st"].term)        # a test the spec maps to the state record
             return V(term, typ)
         if k in self.places:
             if k in self.pairdicts:
@@ -340,6 +342,10 @@ class Translator:
                 self.bad(node, "place is not bound here")
             if getattr(v, "initial", False) or v.term == self.places[k][1]:
                 self.init_used.add(k)
+        if k in self.spec.get("maybe_keys", ()) and not raw:
+            # `d["name"]` of a dict whose entries are the spec's Option places: KeyError on `none`
+            inner = elem_type(typ)
+            return V(self.hoist(f"PyRt.someE PyRt.Err.key {v.term}", inner, node), inner)
         if k in self.maybe_attrs and not raw:
             if not typ.startswith("Option "):
                 self.bad(node, "a maybe-attribute place whose type is not Option")
@@ -383,6 +389,10 @@ class Translator:
         if isinstance(node.value, ast.Name) and node.value.id in env:
             x = env[node.value.id]
             f = self.spec.get("attr_funcs", {}).get((x.typ, node.attr))
+            g = self.spec.get("attr_guards", {}).get((x.typ, node.attr))
+            if f is not None and g is not None:
+                # an attribute only some classes of this object have: AttributeError where the spec's guard says it is absent
+                return V(self.hoist(f"PyRt.guardE PyRt.Err.attr ({g} {x.term}) ({f[0]} {x.term})", f[1], node), f[1])
             if f is not None:
                 return V(f"({f[0]} {x.term})", f[1])
         elif self.spec.get("attr_funcs") and not isinstance(node.value, ast.Name):
@@ -536,6 +546,9 @@ class Translator:
             return self.fmt_expr(node, env)
         a = self.expr(node.left, env)
         b = self.expr(node.right, env)
+        if op == "Add" and {a.typ, b.typ} <= {"Bytes", "Option Bytes"} and "Option Bytes" in (a.typ, b.typ):
+            # `bytes + None` / `None + bytes`: TypeError (both operands are evaluated first; neither evaluation has effects)
+            a, b = [x if x.typ == "Bytes" else V(self.hoist(f"PyRt.someE PyRt.Err.type {x.term}", "Bytes", node), "Bytes") for x in (a, b)]
         if op == "Add" and a.typ == "Bytes" and b.typ == "Bytes":
             return V(f"({a.term} ++ {b.term})", "Bytes")
         if op == "Mult" and ((is_int(a.typ) and b.typ in ("Str", "Bytes")) or (a.typ in ("Str", "Bytes") and is_int(b.typ))):
@@ -814,6 +827,14 @@ class Translator:
         f = node.func
         fname = self.key(f)
         kw = {k.arg: k.value for k in node.keywords}
+        if fname == "cast" and len(node.args) == 2 and not kw:
+            return self.expr(node.args[1], env)                  # typing.cast returns its second argument
+        if fname == "isinstance" and len(node.args) == 2 and not kw and isinstance(node.args[1], ast.Name):
+            x = self.expr(node.args[0], env)
+            fn = self.spec.get("classes", {}).get((x.typ, node.args[1].id))
+            if fn is None:
+                self.bad(node, f"isinstance of {x.typ} against a class the spec does not name")
+            return V(f"({fn} {x.term})", "Bool")
         if fname == "len" and len(node.args) == 1 and not kw:
             x = self.expr(node.args[0], env)
             if not (x.typ == "Bytes" or x.typ.startswith("List ")):
@@ -912,7 +933,8 @@ class Translator:
             return V(f"(PyRt.hexStr {x.term})", "Str")
         om = self.spec.get("obj_methods", {})
         if (isinstance(f, ast.Attribute) and isinstance(f.value, ast.Name) and not kw
-                and (self.seen_types.get(f.value.id, self.spec.get("locals", {}).get(f.value.id)), f.attr) in om):
+                and (self.spec.get("maybe_locals", {}).get(f.value.id) or self.seen_types.get(f.value.id, self.spec.get("locals", {}).get(f.value.id))
+                     or (env[f.value.id].typ if f.value.id in env else None), f.attr) in om):
             recv = self.expr(f.value, env)             # (UnboundLocalError when no statement on this path has assigned it)
             c = om[(recv.typ, f.attr)]
             if len(node.args) != len(c["args"]):
@@ -958,6 +980,18 @@ class Translator:
                 self.bad(node, f"key of type {kx.typ} for a bool-keyed dict place")
             p = self.read_place(pk, env, node)
             return V(f"(if {kx.term} then {p.term}.2 else {p.term}.1)", unparen(split_prod(p.typ)[0]))
+        one = lambda a: isinstance(a, ast.Constant) and isinstance(a.value, str) and len(a.value) == 1
+        if isinstance(f, ast.Attribute) and f.attr == "split" and len(node.args) == 1 and not kw and one(node.args[0]):
+            x = self.expr(f.value, env)
+            if x.typ != "Str":
+                self.bad(node, f"split() of {x.typ}")
+            return V(f"(PyRt.strSplit {ord(node.args[0].value)} {x.term})", "List Str")       # a one-character separator
+        if (isinstance(f, ast.Attribute) and f.attr == "replace" and len(node.args) == 2 and not kw and one(node.args[0])
+                and isinstance(node.args[1], ast.Constant) and node.args[1].value == ""):
+            x = self.expr(f.value, env)
+            if x.typ != "Str":
+                self.bad(node, f"replace() of {x.typ}")
+            return V(f"(PyRt.strRemove {ord(node.args[0].value)} {x.term})", "Str")           # `s.replace(c, "")`
         if isinstance(f, ast.Attribute) and f.attr == "rstrip" and len(node.args) == 1 and not kw:
             x = self.expr(f.value, env)
             if x.typ == "Option Bytes":
@@ -1177,7 +1211,7 @@ class Translator:
     def bind(self, target, v, env, node):
         """env after `target = v`, and the `let` line"""
         env = dict(env)
-        if isinstance(target, ast.Name):
+        if isinstance(target, ast.Name) and target.id not in self.places:
             decl = self.spec.get("locals", {}).get(target.id)
             if decl == "Fmt":
                 if v.typ == "Str" and isinstance(v.lit, str):
@@ -1216,7 +1250,24 @@ class Translator:
             return env, f"let {lname(ln)}' : {ty(typ)} := {term}"
         self.bad(node, "assignment target is neither a local name nor a place of the spec")
 
+    def stmt_update(self, st, rest, env, frame):
+        """spec `stmt_updates` {statement text: field updates}: an assignment the spec maps to updates of the state record (a dict
+        emptied = none of its entries present …); `{st}` in the text is the current state"""
+        upd = self.spec.get("stmt_updates", {}).get(self.key(st))
+        if upd is None or self.state is None:
+            return None
+        cur = env["__st"]
+        env2 = dict(env)
+        env2["__st"] = V("st'", cur.typ)
+        line = f"let st' : {ty(cur.typ)} := {{ {cur.term} with {upd.format(st=cur.term)} }}" if upd else None
+        if line is None:
+            return self.block(rest, env, frame)
+        return line + "\n" + self.block(rest, env2, frame)
+
     def s_Assign(self, st, rest, env, frame):
+        su = self.stmt_update(st, rest, env, frame)
+        if su is not None:
+            return su
         if len(st.targets) > 1 and all(isinstance(t, ast.Name) for t in st.targets):
             # `a = b = e`: `e` is evaluated once, then bound left to right
             first = ast.Assign(targets=[st.targets[0]], value=st.value)
@@ -1227,6 +1278,10 @@ class Translator:
             return self.block([first] + more + list(rest), env, frame)
         if len(st.targets) != 1:
             self.bad(st, "chained assignment")
+        if (isinstance(st.targets[0], ast.Name) and isinstance(st.value, ast.Call) and self.key(st.value.func) == "cast"
+                and len(st.value.args) == 2 and not st.value.keywords and isinstance(st.value.args[1], ast.Name)
+                and st.value.args[1].id == st.targets[0].id):
+            return self.block(rest, env, frame)                # `x = cast(T, x)`: typing.cast returns `x` itself
         if self.key(st.targets[0]) in self.spec.get("ignore_writes", ()):
             # an attribute the spec declares outside the model: the statement is dropped if its right-hand side
             # cannot raise or have an effect (a name, a constant, an empty display)
@@ -1326,7 +1381,12 @@ class Translator:
             if c["kind"] == "method":
                 recv = self.read_place(c["recv"], env, call, raw=True)
                 if not recv.typ.startswith("Option "):
-                    self.bad(call, "a method receiver place whose type is not Option")
+                    # an object that is always there
+                    d = self.fresh("py_d")
+                    env2, line = self.bind(place_node(c["recv"]), V(d + "'", recv.typ), env, call)
+                    term = " ".join([c["lean"], recv.term] + args)
+                    return (f"PyRt.tryR ({term}) (fun py_e {d}' =>\n" + ind(line + "\n" + frame.raise_('py_e', env2), 4)
+                            + f") (fun {vn} {d}' =>\n" + ind(line + "\n" + k(value(vn), env2)) + ")")
                 xt = elem_type(recv.typ)
                 d = self.fresh("py_d")
                 env2, line = self.bind(place_node(c["recv"]), V(d + "'", xt), env, call)
@@ -1407,6 +1467,9 @@ class Translator:
         return self.with_hoists(hs, env, frame, inner)
 
     def s_AnnAssign(self, st, rest, env, frame):
+        su = self.stmt_update(st, rest, env, frame)
+        if su is not None:
+            return su
         if st.value is None:
             return self.block(rest, env, frame)
         return self.s_Assign(ast.copy_location(ast.Assign(targets=[st.target], value=st.value), st), rest, env, frame)
@@ -1463,6 +1526,9 @@ class Translator:
         return None
 
     def s_Expr(self, st, rest, env, frame):
+        su = self.stmt_update(st, rest, env, frame)
+        if su is not None:
+            return su
         c0 = st.value
         if (isinstance(c0, ast.Call) and isinstance(c0.func, ast.Attribute) and c0.func.attr == "update" and len(c0.args) == 1
                 and not c0.keywords and isinstance(c0.func.value, ast.Name) and c0.func.value.id in env
@@ -1479,6 +1545,31 @@ class Translator:
             return self.with_hoists(hs, env, frame, inner)
         if isinstance(c0, ast.Call) and self.key(c0.func) in self.state_calls:
             return self.state_call(c0, env, frame, lambda v, env1: self.block(rest, env1, frame))
+        mm = self.spec.get("mut_methods", {})
+        if (mm and isinstance(c0, ast.Call) and isinstance(c0.func, ast.Attribute) and isinstance(c0.func.value, ast.Name)
+                and c0.func.value.id in env and (env[c0.func.value.id].typ, c0.func.attr) in mm and not c0.keywords):
+            # a method that mutates the object a loop variable holds: the external returns the object afterwards
+            x = env[c0.func.value.id]
+            c = mm[(x.typ, c0.func.attr)]
+            if len(c0.args) != len(c["args"]):
+                self.bad(st, f"`.{c0.func.attr}` with {len(c0.args)} arguments, the spec knows {len(c['args'])}")
+            saved, self.hoists = self.hoists, []
+            args = [self.coerce(self.expr(a, env), t, st) for a, t in zip(c0.args, c["args"])]
+            hs, self.hoists = self.hoists, saved
+            if hs:
+                self.bad(st, "an argument of a mutating method that may raise")
+            env2 = dict(env)
+            n = lname(c0.func.value.id)
+            env2[c0.func.value.id] = V(n, x.typ)
+            text = f"let {n} : {ty(x.typ)} := " + " ".join([c["lean"], x.term] + args) + "\n"
+            apk = env.get(("alias", c0.func.value.id))
+            if apk is not None:
+                # the object was appended to this list before: the list's last element is the same object
+                curp = self.read_place(apk, env2, st)
+                env2, line = self.bind(ast.parse(apk, mode="eval").body, V(f"(PyRt.setLast {curp.term} {n})", self.places[apk][2]), env2, st)
+                env2[("alias", c0.func.value.id)] = apk
+                text += line + "\n"
+            return text + self.block(rest, env2, frame)
         if (isinstance(c0, ast.Call) and isinstance(c0.func, ast.Attribute) and c0.func.attr == "append" and len(c0.args) == 1
                 and not c0.keywords and isinstance(c0.func.value, ast.Name) and c0.func.value.id in env
                 and env[c0.func.value.id].typ.startswith("List ") and c0.func.value.id in self.spec.get("locals", {})):
@@ -1491,6 +1582,18 @@ class Translator:
                 env2, line = self.bind(c0.func.value, new, env, st)
                 return line + "\n" + self.block(rest, env2, frame)
             return self.with_hoists(hs, env, frame, inner)
+        if (isinstance(c0, ast.Call) and isinstance(c0.func, ast.Attribute) and c0.func.attr == "extend" and len(c0.args) == 1
+                and not c0.keywords and isinstance(c0.func.value, ast.Name) and c0.func.value.id in env
+                and env[c0.func.value.id].typ.startswith("List ") and c0.func.value.id in self.spec.get("locals", {})):
+            # a list local this function created: extend rebinds it
+            x = env[c0.func.value.id]
+            v, hs = self.eval(c0.args[0], env)
+
+            def inner_lext():
+                new = V(f"({x.term} ++ {self.coerce(v, x.typ, st)})", x.typ)
+                env2, line = self.bind(c0.func.value, new, env, st)
+                return line + "\n" + self.block(rest, env2, frame)
+            return self.with_hoists(hs, env, frame, inner_lext)
         if (isinstance(c0, ast.Call) and isinstance(c0.func, ast.Attribute) and c0.func.attr == "clear" and not c0.args and not c0.keywords
                 and self.key(c0.func.value) in self.places and self.places[self.key(c0.func.value)][2].startswith("List ")):
             env2, line = self.bind(c0.func.value, V("[]", "EmptyList"), env, st)
@@ -1507,6 +1610,21 @@ class Translator:
                 env2, line = self.bind(c0.func.value, new, env, st)
                 return line + "\n" + self.block(rest, env2, frame)
             return self.with_hoists(hs, env, frame, inner_ext)
+        if (isinstance(c0, ast.Call) and isinstance(c0.func, ast.Attribute) and c0.func.attr == "add" and len(c0.args) == 1
+                and not c0.keywords and self.key(c0.func.value) in self.places and self.places[self.key(c0.func.value)][2].startswith("Set ")):
+            pk = self.key(c0.func.value)
+            v, hs = self.eval(c0.args[0], env)
+
+            def inner_add():
+                cur = self.read_place(pk, env, st)
+                typ = self.places[pk][2]
+                if v.typ == "Option " + elem_type(typ):
+                    new = V(f"(PyRt.setAddO {cur.term} {v.term})", typ)
+                else:
+                    new = V(f"(PyRt.setAdd {cur.term} {self.coerce(v, elem_type(typ), st)})", typ)
+                env2, line = self.bind(c0.func.value, new, env, st)
+                return line + "\n" + self.block(rest, env2, frame)
+            return self.with_hoists(hs, env, frame, inner_add)
         ap = self.append_call(st)
         if ap is not None:
             pk, arg = ap
@@ -1517,6 +1635,10 @@ class Translator:
                 typ = self.places[pk][2]
                 new = V(f"({cur.term} ++ [{self.coerce(v, elem_type(typ), st)}])", typ)
                 env2, line = self.bind(st.value.func.value, new, env, st)
+                for k_ in [k_ for k_ in env2 if isinstance(k_, tuple) and k_[0] == "alias" and env2[k_] == pk]:
+                    del env2[k_]
+                if pk in self.spec.get("obj_lists", {}) and isinstance(arg, ast.Name):
+                    env2[("alias", arg.id)] = pk        # the list's last element IS this object: a later mutation shows in both
                 return line + "\n" + self.block(rest, env2, frame)
             return self.with_hoists(hs, env, frame, inner)
         if (isinstance(c0, ast.Call) and isinstance(c0.func, ast.Attribute) and c0.func.attr == "update" and len(c0.args) == 1
@@ -1609,6 +1731,32 @@ class Translator:
             if v.typ == inner:
                 env2, line = self.bind(t.left, V(f"(Option.getD {x.term} {v.term})", inner), env, st)
                 return line + "\n" + self.block(rest, env2, frame)
+        if (self.spec.get("narrow_not_none") and isinstance(t, ast.Compare) and len(t.ops) == 1 and isinstance(t.ops[0], ast.Is)
+                and isinstance(t.left, ast.Name) and isinstance(t.comparators[0], ast.Constant) and t.comparators[0].value is None
+                and t.left.id in env and env[t.left.id].typ.startswith("Option ") and t.left.id not in self.spec.get("maybe_locals", {})
+                and not st.orelse and st.body and isinstance(st.body[-1], (ast.Return, ast.Raise, ast.Continue, ast.Break))):
+            # spec `narrow_not_none`: `if x is None: …; return` — what follows runs with `x` the value itself
+            x = env[t.left.id]
+            inner_t = elem_type(x.typ)
+            nv = self.fresh("py_n")
+            env_s = dict(env)
+            env_s[t.left.id] = V(nv, inner_t)
+            a = self.block(st.body, env, frame)
+            b = self.block(rest, env_s, frame)
+            return f"match {x.term} with\n| none => (\n{ind(a)})\n| some {nv} => (\n{ind(b)})"
+        if (self.spec.get("narrow_not_none") and isinstance(t, ast.Compare) and len(t.ops) == 1 and isinstance(t.ops[0], ast.IsNot)
+                and isinstance(t.left, ast.Name) and isinstance(t.comparators[0], ast.Constant) and t.comparators[0].value is None
+                and t.left.id in env and env[t.left.id].typ.startswith("Option ") and t.left.id not in self.spec.get("maybe_locals", {})):
+            # spec `narrow_not_none`: `if x is not None: …` — inside, `x` is the value itself
+            x = env[t.left.id]
+            inner_t = elem_type(x.typ)
+            nv = self.fresh("py_n")
+            env_s = dict(env)
+            env_s[t.left.id] = V(nv, inner_t)
+            k = ContFrame(self, frame, rest)
+            a = self.block(st.body, env_s, k)
+            b = self.block(st.orelse, env, k)
+            return f"match {x.term} with\n| some {nv} => (\n{ind(a)})\n| none => (\n{ind(b)})"
         if isinstance(st.test, (ast.BoolOp, ast.UnaryOp, ast.Name, ast.Attribute)):
             cond = self.as_condition(st.test, env)
             if cond is not st.test:
@@ -1644,15 +1792,110 @@ class Translator:
             if simple is not None:
                 text, env2 = simple
                 return (text + "\n" if text else "") + self.block(rest, env2, frame)
+            if rest and self.spec.get("join_raises") and self.state is not None:
+                rj = self.try_rjoin(c, st.body, st.orelse, env, st, frame)
+                if rj is not None:
+                    head, env2 = rj
+                    return head + ind(self.block(rest, env2, frame)) + ")"
             k = ContFrame(self, frame, rest)
             a = self.block(st.body, env, k)
             b = self.block(st.orelse, env, k)
             return f"if {c.term} then (\n{ind(a)})\nelse (\n{ind(b)})"
         return self.with_hoists(hs, env, frame, inner)
 
+    def try_rjoin(self, c, body, orelse, env, node, frame):
+        """spec `join_raises`: branches that assign and may RAISE (no return / break / continue), followed by more statements:
+        the `if` is a `Res` value — `.ok <assigned locals> <state>` or `.raised e <state at the raise>` — so that what follows
+        is rendered once. None when that form does not apply."""
+        mod = self.assigned(body, [])
+        self.assigned(orelse, mod)
+        if any(isinstance(m, str) and m not in env and m in self.reserved for m in mod):
+            return None
+        if any(isinstance(m, tuple) or m == "__acts" for m in mod):
+            return None
+        saved = (self.tmp, self.raises)
+        jf = RJoinFrame(self, mod)
+        try:
+            a = self.block(body, env, jf)
+            b = self.block(orelse, env, jf)
+        except _NotSimple:
+            self.tmp, self.raises = saved
+            return None
+        loc = [m for m in mod if m != "__st"]
+        if any(m not in e for e in jf.ends for m in loc):
+            self.tmp, self.raises = saved
+            return None
+        self.raises = True
+        typs, nns = [], []
+        for m in loc:
+            t, nn = None, True
+            for e in jf.ends:
+                t = e[m].typ if t is None else self.join_type(t, e[m].typ, node)
+                nn = nn and e[m].nn
+            typs.append(t)
+            nns.append(nn)
+        parts = [a, b]
+        for j, e in enumerate(jf.ends):
+            tup = "(" + ", ".join(self.coerce(e[m], t, node) for m, t in zip(loc, typs)) + ")"
+            parts = [p.replace(f"\0J{id(jf)}_{j}\0", f"(.ok {tup} {e['__st'].term})") for p in parts]
+        sty = " × ".join(ty_arg(t) if " " in ty(t) else ty(t) for t in typs) if loc else "Unit"
+        stt = env["__st"].typ
+        j = self.fresh("py_j")
+        env_r = dict(env)
+        env_r["__st"] = V("st'", stt)
+        for m in loc:                  # at a raise inside a branch the locals it assigns are not known out here
+            env_r.pop(m, None)
+            env_r[("maybe", m)] = True
+        env2 = dict(env)
+        env2["__st"] = V("st'", stt)
+        lines = []
+        for idx, (m, t, nn) in enumerate(zip(loc, typs, nns)):
+            proj = j if len(loc) == 1 else j + ".2" * idx + (".1" if idx < len(loc) - 1 else "")
+            lines.append(f"let {lname(m)} : {ty(t)} := {proj}")
+            env2[m] = V(lname(m), t, nn)
+            env2.pop(("maybe", m), None)
+        rty = f"PyRt.Res {ty_arg(stt)} {ty_arg(sty) if ' ' in sty else sty}"
+        expr = f"if {c.term} then (\n{ind(parts[0])})\nelse (\n{ind(parts[1])})"
+        call = self.split_join(node, env, expr, rty)
+        head = (f"PyRt.tryR ({call})"
+                f" (fun py_e st' => {frame.raise_('py_e', env_r)}) (fun {j if loc else '_'} st' =>\n"
+                + "".join(ind(l) + "\n" for l in lines))
+        return head, env2
+
+    def split_join(self, node, env, expr, rty):
+        """the `Res`-valued `if` of `try_rjoin` as a definition of its own (`<name>.join<k>`), the names it uses as parameters"""
+        import re
+        defined = set(re.findall(r"fun (py_t_\d+) =>", expr)) | set(re.findall(r"fun (py_v_\d+) ", expr))
+        used = set(re.findall(r"\bpy_[tv]_\d+\b", expr))
+        if used - defined:
+            return f"(({expr}) : {rty})"
+        self.njoins = getattr(self, "njoins", 0) + 1
+        nm = f"{self.name}.join{self.njoins}"
+        params = []
+        for n, t in self.spec.get("externals", []):
+            if re.search(r"(?<![\w.'«])" + re.escape(n) + r"(?![\w'»])", expr):
+                params.append((n, RawType(t)))
+        seen = {n for n, _ in params}
+        for k_, v in env.items():
+            if not isinstance(v, V) or not re.fullmatch(r"«?[A-Za-z_][\w]*»?'?", v.term):
+                continue
+            if v.term in seen:
+                continue
+            if re.search(r"(?<![\w.'«])" + re.escape(v.term) + r"(?![\w'»])", expr):
+                params.append((v.term, v.typ))
+                seen.add(v.term)
+        sig = " ".join(f"({n} : {ty(t)})" for n, t in params)
+        tp = "".join(f"{{{t} : Type}} " for t in self.spec.get("tparams", ()))
+        self.aux_defs = getattr(self, "aux_defs", [])
+        self.aux_defs.append(f"def {nm} {tp}{sig} : {rty} :=\n{ind(expr)}\n")
+        return " ".join([nm] + [n for n, _ in params])
+
     def assigned(self, stmts, acc):
         for s in stmts:
-            if isinstance(s, (ast.Assign, ast.AugAssign, ast.AnnAssign)):
+            if isinstance(s, (ast.Assign, ast.AnnAssign, ast.Expr)) and self.key(s) in self.spec.get("stmt_updates", {}):
+                if "__st" not in acc:
+                    acc.append("__st")
+            elif isinstance(s, (ast.Assign, ast.AugAssign, ast.AnnAssign)):
                 for t in (s.targets if isinstance(s, ast.Assign) else [s.target]):
                     if isinstance(t, ast.Subscript) and isinstance(t.value, ast.Name) and self.key(t) not in self.places:
                         t = t.value
@@ -1744,6 +1987,8 @@ class Translator:
                 return ast.Compare(left=name, ops=[ast.Is()], comparators=[ast.Constant(value=None)])
             if isinstance(p, ast.MatchOr):
                 return ast.BoolOp(op=ast.Or(), values=[test(q) for q in p.patterns])
+            if isinstance(p, ast.MatchClass) and isinstance(p.cls, ast.Name) and not p.patterns and not p.kwd_patterns:
+                return ast.Call(func=ast.Name(id="isinstance", ctx=ast.Load()), args=[name, p.cls], keywords=[])
             self.bad(st, f"match pattern {type(p).__name__} (only constants, `|` and `_`)")
         for i, c in reversed(list(enumerate(cases))):
             if isinstance(c.pattern, ast.MatchAs) and c.pattern.pattern is None and c.pattern.name is None:
@@ -1816,7 +2061,39 @@ class Translator:
             return x.term, [(n, t, t == "Nat") for n, t in zip(ns, parts)], hs
         self.bad(st, "loop over anything but range(), enumerate(bytes), bytes or a list of the spec")
 
+    def obj_loop(self, st, rest, env, frame):
+        """spec `obj_lists` {list place: element type}: `for x in <list of objects>` whose body only tests `x`, calls mutating
+        methods of `x` (spec `mut_methods`: the external returns the object as it is afterwards) and may `return` —
+        `PyRt.forObjs`: the list with the visited objects as they are afterwards, and whether the body returned"""
+        pk = self.key(st.iter)
+        et = self.spec["obj_lists"][pk]
+        if not isinstance(st.target, ast.Name) or st.orelse:
+            self.bad(st, "a loop over an object list with a tuple target or an else")
+        nm = st.target.id
+        cur = self.read_place(pk, env, st)
+        env_b = dict(env)
+        env_b[nm] = V(lname(nm), et)
+        o = self.fresh("py_o")
+        saved = (self.raises, self.tmp)
+        self.raises = False
+        body = self.block(list(st.body), env_b, ObjLoopFrame(self, nm, False))
+        body_raises = self.raises
+        if body_raises:
+            # the body can raise: each round ends in (the object as it is then, how it ended)
+            body = self.block(list(st.body), env_b, ObjLoopFrame(self, nm, True))
+        self.raises = saved[0] or body_raises
+        env2, line = self.bind(st.iter, V(f"{o}.1", self.places[pk][2]), env, st)
+        ret = self.s_Return(ast.copy_location(ast.Return(value=None), st), [], env2, frame)
+        if not body_raises:
+            return (f"let {o} := PyRt.forObjs {cur.term} (fun ({lname(nm)} : {ty(et)}) =>\n{ind(body, 4)})\n{line}\n"
+                    f"if {o}.2 then (\n{ind(ret)})\nelse (\n{ind(self.block(rest, env2, frame))})")
+        return (f"let {o} := PyRt.forObjsE {cur.term} (fun ({lname(nm)} : {ty(et)}) =>\n{ind(body, 4)})\n{line}\n"
+                f"PyRt.tryE {o}.2 (fun py_e => {frame.raise_('py_e', env2)}) (fun py_r =>\n"
+                + ind(f"if py_r then (\n{ind(ret)})\nelse (\n{ind(self.block(rest, env2, frame))})") + ")")
+
     def s_For(self, st, rest, env, frame):
+        if self.key(st.iter) in self.spec.get("obj_lists", {}):
+            return self.obj_loop(st, rest, env, frame)
         if st.orelse:
             self.bad(st, "for … else")
         lst, bound, hs = self.loop_iter(st, env)
@@ -2083,6 +2360,34 @@ class JoinFrame(Frame):
         return "\n".join(lines), env2
 
 
+class ObjLoopFrame(Frame):
+    """the body of a loop over a list of objects (`Translator.obj_loop`): ends in (the object afterwards, returned?) — when the
+    body can raise, in (the object as it is then, `.ok returned?` / `.error e`)"""
+    def __init__(self, tr, nm, raising):
+        self.tr, self.nm, self.raising = tr, nm, raising
+
+    def fall(self, env):
+        return f"({env[self.nm].term}, (Except.ok false : Except PyRt.Err Bool))" if self.raising else f"({env[self.nm].term}, false)"
+
+    def ret(self, val, env, node):
+        if val.typ != "NoneType":
+            self.tr.bad(node, "`return <value>` inside a loop over an object list")
+        return f"({env[self.nm].term}, (Except.ok true : Except PyRt.Err Bool))" if self.raising else f"({env[self.nm].term}, true)"
+
+    def raise_(self, e, env):
+        self.tr.raises = True
+        return f"({env[self.nm].term}, (Except.error {e} : Except PyRt.Err Bool))"
+
+    def cont(self, env, node): return self.fall(env)
+    def brk(self, env, node): self.tr.bad(node, "break inside a loop over an object list")
+
+
+class RJoinFrame(JoinFrame):
+    """branches that assign and may raise, as one `Res` value (`Translator.try_rjoin`)"""
+    def raise_(self, e, env):
+        return f"(.raised {e} {env['__st'].term})"
+
+
 class LoopFrame(Frame):
     """a loop body: ends in the state tuple (wrapped in `.ok` when the body can raise; `.ok (.next …)` in a loop that can
     be left by `return` or is a `while`: there `return` ends in `.ok (.ret <the definition's result>)`)"""
@@ -2141,8 +2446,8 @@ class TopFrame(Frame):
     def state(self, env):
         tr = self.tr
         if tr.state is not None:
-            if tr.outs or tr.actions:
-                tr.bad(None, "a definition over a state record with result locals or actions")
+            if tr.actions:
+                tr.bad(None, "a definition over a state record with actions")
             return env["__st"].term
         fields = []
         for k, (_, ln, typ, mode) in tr.places.items():
@@ -2179,6 +2484,14 @@ class TopFrame(Frame):
         tr = self.tr
         if tr.exits:
             return self.result("PyRt.Exit.fall", env)
+        if tr.state is not None and tr.outs:
+            # a fragment over a state record: its value is the tuple of its result locals
+            vals = []
+            for n, typ in tr.outs:
+                if env.get(n) is None:
+                    tr.bad(None, f"result local `{n}` is not assigned on every path")
+                vals.append(tr.coerce(env[n], typ, None))
+            return self.result("(" + ", ".join(vals) + ")", env)
         if self.fragment or tr.ret == "None":
             return self.result("()", env)
         if tr.ret.startswith("Option "):
@@ -2357,10 +2670,13 @@ def _translate(tr, func, spec, assume_raises):
         stateful = False
     else:
         tr.value_type = "PyRt.Exit" if tr.exits else ("Unit" if (fragment or tr.ret == "None") else ty(tr.ret))
+        if tr.state is not None and tr.outs:
+            tr.value_type = " × ".join(ty_arg(t) if " " in ty(t) else ty(t) for _, t in tr.outs)
         top = TopFrame(tr, fragment)
         text = tr.block(list(body), env, top)
         vt = tr.value_type
-        stn = f"{tr.name}.St" if tr.state is None else ty_arg(tr.state["type"])
+        stp = "".join(" " + t for t in spec.get("st_tparams", ()))
+        stn = (f"({tr.name}.St{stp})" if stp else f"{tr.name}.St") if tr.state is None else ty_arg(tr.state["type"])
         if stateful:
             plain = stn if vt == "Unit" else f"({ty_arg(vt)} × {stn})"
             rtype = ((f"Except PyRt.Err {plain}" if spec.get("raise_state") is False else f"PyRt.Res {stn} {ty_arg(vt)}")
@@ -2373,7 +2689,8 @@ def _translate(tr, func, spec, assume_raises):
         fields += [f"  {n} : {ty(t)}" for n, t in tr.outs]
         if tr.actions:
             fields.append(f"  acts : List {spec['action_type']}")
-        out.append(f"structure {tr.name}.St where\n" + "\n".join(fields) + "\n  deriving DecidableEq, Repr\n")
+        stb = "".join(f" ({t} : Type)" for t in spec.get("st_tparams", ()))
+        out.append(f"structure {tr.name}.St{stb} where\n" + "\n".join(fields) + "\n  deriving DecidableEq, Repr\n")
     # a written place whose initial value is never looked at is not a parameter
     import re
     for k, ln, typ in place_binders:
